@@ -93,8 +93,9 @@ fn hand_clause(s: &str) -> Result<String, String> {
             continue;
         }
         if k < n {
-            if got != Err(HandError::InvalidIndex) {
-                return Err(format!("parsing {:?} ({} tokens under the {:?} definition of whitespace the crate follows elsewhere) as a {}-slot hand gave {:?}, expected Err(InvalidIndex): fewer tokens than slots", s, k, def, n, got.map(|v| card::render_hand(&v))));
+            // the statement says "fails", not which error: any Err is accepted
+            if got.is_ok() {
+                return Err(format!("parsing {:?} ({} tokens under the {:?} definition of whitespace the crate follows elsewhere) as a {}-slot hand gave {:?}, expected an error: fewer tokens than slots", s, k, def, n, got.map(|v| card::render_hand(&v))));
             }
         } else if k == n {
             match &got {
